@@ -34,9 +34,9 @@ theorem familyNames_eq (n t : Str) : familyNames n t = allowedNames n t := by
   unfold familyNames allowedNames
   rw [lookup_spec]
 
-theorem kwType_eq : kwType = "TYPE".toList := by decide
-theorem kwHelp_eq : kwHelp = "HELP".toList := by decide
-theorem kwUnit_eq : kwUnit = "UNIT".toList := by decide
+theorem kwType_eq : kwType = cs!"TYPE" := by decide
+theorem kwHelp_eq : kwHelp = cs!"HELP" := by decide
+theorem kwUnit_eq : kwUnit = cs!"UNIT" := by decide
 
 theorem inFam_bridge (n t : Str) (l : Line) (h : InFam n t l) : InFamM n t l := by
   cases l with
